@@ -1,6 +1,6 @@
 HOOK_COMMITS = ['0ef6b80', '62f2d90', '104cc07', '2930f44', '1559732']
 # properties whose check has been integrated and verified by the coordinator (agents' in-progress checks are not claimed)
-CLAIMED = ['C01', 'C02', 'C03', 'C04', 'C06', 'C07', 'C08', 'C09', 'C10', 'C11', 'C12', 'C13', 'C14', 'C15', 'C16', 'C18', 'C19']
+CLAIMED = ['C%02d' % i for i in range(1, 21)]
 NOT_BUILT = 'not yet covered: model/theorem for this property not completed in this state of /verif (see DESIGN.md section 10)'
 # reason per property that has no checks/Cxx.py with a MANIFEST entry
 NOT_APPLICABLE = {('C%02d' % i): NOT_BUILT for i in range(1, 21)}
